@@ -212,7 +212,8 @@ func (w *vC05World) step(op int, tgt string) bool {
 		}
 		w.add(rec, raw)
 	case 10: // permission change (also the route that would re-grant a removed account)
-		rec, err := own.BuildPermissionChange(PermissionChangePayload{Identity: tpub, Permissions: perm()})
+		p := []AclPermissions{AclPermissionsReader, AclPermissionsAdmin, AclPermissionsNone}[rt.Choose(3)]
+		rec, err := own.BuildPermissionChange(PermissionChangePayload{Identity: tpub, Permissions: p})
 		if err != nil {
 			return false
 		}
@@ -230,6 +231,12 @@ func (w *vC05World) step(op int, tgt string) bool {
 			return false
 		}
 		inv.revokedAt = len(w.gens)
+		w.add(rec, "")
+	case 13: // the owner hands the space over to the account
+		rec, err := own.BuildOwnershipChange(OwnershipChangePayload{NewOwner: tpub, OldOwnerPermissions: AclPermissionsAdmin})
+		if err != nil {
+			return false
+		}
 		w.add(rec, "")
 	case 12: // one record that removes the account and revokes the newest live invite (what "stop sharing" sends)
 		inv := w.liveInvite(true)
@@ -398,10 +405,10 @@ func VerifC05Keys() {
 	w := vC05NewWorld()
 	w.check()
 	for i := 0; i < n; i++ {
-		op := rt.Choose(13)
+		op := rt.Choose(14)
 		tgt := "a"
 		switch op {
-		case 2, 3, 4, 5, 6, 7, 10, 12:
+		case 2, 3, 4, 5, 6, 7, 10, 12, 13:
 			tgt = []string{"a", "b"}[rt.Choose(2)]
 		}
 		if !w.step(op, tgt) {
